@@ -330,7 +330,10 @@ theorem storable_of_store (k : Kind) (hk : KindOK k) (v v' : Val) (h : store k v
     · subst h; exact storable_opt_int names hk _
     · rename_i sy
       cases he : enumKey names sy with
-      | none => simp [he] at h
+      | none =>
+        simp [he] at h
+        subst h
+        exact storable_opt_int names hk _
       | some k =>
         simp [he] at h
         subst h
